@@ -381,6 +381,12 @@ DEC_APALACHE = {'kind': 'proof', 'name': 'pending-bound-inductive', 'script': 'a
                 'statement': 'ApaPending.tla: IndInv (state only for open runs; bytes held <= segment bytes received) is inductive: '
                              'Init => IndInv and IndInv /\\ Next => IndInv\', for histories of any length and segments of any size '
                              '(record-level abstraction of spec/Decoder.tla + the ghost of spec/DecProps.tla)'}
+DEC_APALACHE_NOMIX = {'kind': 'proof', 'name': 'no-mixing-inductive', 'script': 'apalache/run.sh', 'module': 'ApaNoMix', 'obligations': 2,
+                      'statement': 'ApaNoMix.tla: for every well-formed stream of 7 frames with pairwise different counters whose frames arrive in any '
+                                   'order, any number of times, with any of them missing (history of any length), the decoder rule of '
+                                   'spec/Decoder.tla keeps in an open entry only the first segment of one message and its directly following '
+                                   'segments, and delivers only whole messages of the stream (IndInv is inductive: Init => IndInv, '
+                                   'IndInv /\\ Next => IndInv\'); a copy with the counter test weakened is refuted'}
 DEC_STREAMS = {'kind': 'gen', 'name': 'streams', 'gen': dec_streams, 'comp': 'dec', 'trace': 'TraceDec'}
 DEC_RFAULTS = {'kind': 'gen', 'name': 'randomfaults', 'gen': dec_faults, 'comp': 'dec', 'trace': 'TraceDec'}
 DEC_RANY = {'kind': 'gen', 'name': 'randomhistory', 'gen': dec_anyhist, 'comp': 'dec', 'trace': 'TraceDec'}
@@ -435,7 +441,7 @@ PROPS = {
                     'returns exactly what the sender-side ghost expects (C05 in TraceDec). Non-trivial = distinct decode operations '
                     'feeding a segment (tree stages) / distinct episodes feeding at least one segment (random stage).',
             'assumptions': COMMON_ASSUMPTIONS},
-    'C06': {'level': 'model_checking', 'stages': [DEC_FAULTS, DEC_LINK_WALKS, DEC_RFAULTS], 'nontrivial_case': nt_dec_fault, 'nontrivial_op': ntop_fault,
+    'C06': {'level': 'model_checking', 'stages': [DEC_APALACHE_NOMIX, DEC_FAULTS, DEC_LINK_WALKS, DEC_RFAULTS], 'nontrivial_case': nt_dec_fault, 'nontrivial_op': ntop_fault,
             'rule': 'MC_Link/Faults: the Reassembly senders plus every placement of up to MaxFaults faults (drop, duplicate, '
                     'hold/release reordering, corrupt version, corrupt type); tree replay on the real decoder; plus seeded random '
                     'fault sequences. Monitors NoCorruption (every delivered packet equals a declared sent message of its '
